@@ -144,14 +144,17 @@ func (h *NFSProcedureHandler) handleSetattr(body io.Reader, reply *RPCReply, aut
 		return nfsErrorWithWcc(reply, NFSERR_IO), nil
 	}
 	attrs := &NFSAttrs{
-		Mode: node.attrs.Mode,
-		Uid:  node.attrs.Uid,
-		Gid:  node.attrs.Gid,
+		Mode:   node.attrs.Mode,
+		Size:   node.attrs.Size,
+		FileId: node.attrs.FileId,
+		Uid:    node.attrs.Uid,
+		Gid:    node.attrs.Gid,
 	}
 	node.mu.RUnlock()
 
 	if sattr.SetMode {
-		attrs.Mode = os.FileMode(sattr.Mode)
+		// Only the permission bits can be set; the object's type never changes
+		attrs.Mode = attrs.Mode&^os.ModePerm | os.FileMode(sattr.Mode)&os.ModePerm
 	}
 	if sattr.SetUID {
 		if authCtx.EffectiveUID == 0 {
